@@ -366,7 +366,7 @@ func ruleWhoWritesTables(w *World, r *Report, rSingle, rCache string, la *LockAn
 // ruleCreateCallSites: R01.3 who-may-call createInstance, and the guards of eager creation.
 func ruleCreateCallSites(w *World, r *Report, rule string) {
 	ro := resolveRoles(w)
-	allowed := map[*FuncInfo]string{ro.resolve: "resolve (Scoped / Transient clauses)", ro.runInits: "scope initializer pass", ro.createAll: "eager singleton creation"}
+	allowed := w.HelperClosure(map[*FuncInfo]string{ro.resolve: "resolve (Scoped / Transient clauses)", ro.runInits: "scope initializer pass", ro.createAll: "eager singleton creation"})
 	n := 0
 	for _, fi := range w.FuncsOf(w.Godi) {
 		info := fi.Pkg.TypesInfo
@@ -382,6 +382,13 @@ func ruleCreateCallSites(w *World, r *Report, rule string) {
 	}
 	// eager creation: guarded by Lifetime != Singleton -> continue and by already-present -> continue on a from-descriptor key
 	fi := ro.createAll
+	for _, f := range w.Within(ro.createAll, 3) {
+		for _, c := range callsIn(f.Decl.Body, true) {
+			if callee(f.Pkg.TypesInfo, c) == ro.createInstance.Obj {
+				fi = f // the function that holds the call (eager creation itself or a private helper of it)
+			}
+		}
+	}
 	r.Analysed(fi)
 	info := fi.Pkg.TypesInfo
 	fl := w.FlowOf(fi)
@@ -424,7 +431,7 @@ func ruleCreateCallSites(w *World, r *Report, rule string) {
 				}
 				_ = k
 			}
-			r.Check(isSingleton, rule, fi.Name()+"#only-singletons", c.Pos(), true,
+			r.Check(isSingleton, rule, ro.createAll.Name()+"#only-singletons", c.Pos(), true,
 				"eager creation constructs only descriptors whose lifetime was tested to be Singleton",
 				"eager creation can construct a descriptor without having established that its lifetime is Singleton: scoped or transient constructors run at Build")
 			absent := false
@@ -433,7 +440,7 @@ func ruleCreateCallSites(w *World, r *Report, rule string) {
 					absent = true
 				}
 			}
-			r.Check(absent, rule, fi.Name()+"#skip-existing", c.Pos(), true,
+			r.Check(absent, rule, ro.createAll.Name()+"#skip-existing", c.Pos(), true,
 				"eager creation skips a descriptor whose key is already in the singleton table (a multi-output constructor has already produced it)",
 				"eager creation does not skip descriptors whose key is already in the singleton table: a constructor that yields several singletons runs once per output")
 			// the key tested is built from the same descriptor
@@ -449,7 +456,7 @@ func ruleCreateCallSites(w *World, r *Report, rule string) {
 				}
 				return true
 			})
-			r.Check(keyOK, rule, fi.Name()+"#key-from-descriptor", c.Pos(), false,
+			r.Check(keyOK, rule, ro.createAll.Name()+"#key-from-descriptor", c.Pos(), false,
 				"the key tested is instanceKey{Type, Key, Group} of the descriptor being constructed", "the presence test does not use the full (Type, Key, Group) identity of the descriptor being constructed")
 		}
 	}
@@ -787,14 +794,19 @@ func ruleFieldFilters(w *World, r *Report, rule string) {
 		fi := w.MustFn(w.Refl, name)
 		r.Analysed(fi)
 		info := fi.Pkg.TypesInfo
-		// the loop over struct fields: for i := 0; i < T.NumField(); i++
+		// the loop over struct fields: for i := 0; i < T.NumField(); i++ (in the function or a private helper of it)
 		var loop *ast.ForStmt
-		ast.Inspect(fi.Decl.Body, func(x ast.Node) bool {
-			if fs, ok := x.(*ast.ForStmt); ok && strings.Contains(exprStr(fs.Cond), "NumField") {
-				loop = fs
+		for _, f := range w.Within(fi, 2) {
+			if loop != nil {
+				break
 			}
-			return true
-		})
+			ast.Inspect(f.Decl.Body, func(x ast.Node) bool {
+				if fs, ok := x.(*ast.ForStmt); ok && fs.Cond != nil && strings.Contains(exprStr(fs.Cond), "NumField") {
+					loop = fs
+				}
+				return true
+			})
+		}
 		con := fi.Name() + "#field-filters"
 		if loop == nil {
 			r.Fail(rule, con, fi.Decl.Pos(), "no loop over the struct's fields")
@@ -1003,7 +1015,15 @@ func ruleInitializersOnce(w *World, r *Report, rule string) {
 // ruleArgsPerInvocation: R03.3b.
 func ruleArgsPerInvocation(w *World, r *Report, rule string) {
 	for _, s := range []struct{ fn, callee string }{{"(*ConstructorInvoker).buildArguments", "resolveParameter"}, {"(*ParamObjectBuilder).BuildParamObject", "resolveFieldDependency"}} {
-		fi := w.MustFn(w.Refl, s.fn)
+		top := w.MustFn(w.Refl, s.fn)
+		fi := top
+		for _, f := range w.Within(top, 2) {
+			for _, c := range callsIn(f.Decl.Body, true) {
+				if cal := callee(f.Pkg.TypesInfo, c); cal != nil && cal.Name() == s.callee {
+					fi = f
+				}
+			}
+		}
 		info := fi.Pkg.TypesInfo
 		ok := false
 		ast.Inspect(fi.Decl.Body, func(x ast.Node) bool {
@@ -1060,9 +1080,9 @@ func ruleArgsPerInvocation(w *World, r *Report, rule string) {
 			}
 			return true
 		})
-		r.Check(ok && fresh, rule, fi.Name()+"#per-invocation", fi.Decl.Pos(), false,
+		r.Check(ok && fresh, rule, top.Name()+"#per-invocation", fi.Decl.Pos(), false,
 			"each parameter / field is resolved once per invocation into a freshly allocated argument list",
-			fi.Name()+" does not resolve each parameter once per invocation into storage allocated by this call")
+			top.Name()+" does not resolve each parameter once per invocation into storage allocated by this call")
 	}
 }
 
